@@ -6,6 +6,7 @@
 //!   record <module> <out.ndjson> [opts]          code -> spec (trace for TLC)
 mod codec;
 mod logfile;
+mod meta;
 mod node;
 mod sm;
 mod store;
@@ -24,6 +25,7 @@ fn main() {
         ("replay", "logfile") => logfile::replay(&args[3..]),
         ("replay", "store") => store::replay(&args[3..]),
         ("record", "logfile") => logfile::record(&args[3..]),
+        ("replay", "meta") => meta::replay(&args[3..]),
         ("node", "run") => node::main_node(&args[3..]),
         _ => Err(anyhow::anyhow!("unknown command {} {}", args[1], args[2])),
     };
